@@ -108,8 +108,9 @@ PROPS = {
     'C10': dict(
         level='proof',
         explain='Panic freedom and termination of everything above the FS layer, with NO precondition on block contents: every index, slice, unwrap, +,-,*, cast and assert! (R5) in '
-                'the reader stack, decoders, replay loop and accessors is a discharged obligation; loops carry decreases clauses.',
-        kani_quick=[], kani_thorough=[],
+                'the reader stack, decoders, replay loop and accessors is a discharged obligation; loops carry decreases clauses. '
+                'Directory listing: filename_to_position (str byte reasoning, outside Verus) is decided by CBMC over ALL 24-byte names not to panic (K-fname, K-fname-nb: including names whose byte 4 is not a char boundary) and over all other lengths (K-fname-len).',
+        kani_quick=['K-fname-nb', 'K-fname', 'K-fname-len'], kani_thorough=[],
         trusted=[FS], not_decided=['Directory::open / RollingReader::{open,next_block} on odd directory contents', 'allocation without bound', 'range (bounded)'],
     ),
     'C11': dict(
@@ -162,11 +163,11 @@ PROPS = {
     'C17': dict(
         level='proof',
         explain='filename_to_position decided by CBMC over ALL 24-byte names (fixed width, loops bounded by the constant width, unwinding assertions on: complete, not bounded): '
-                'Some(n) iff "wal-" + 20 ASCII digits fitting u64, n = that value (K-fname); other lengths -> None (K-fname-len); filename() round trip (K-fname-rt, bounded in the digits). '
+                'Some(n) iff "wal-" + 20 ASCII digits fitting u64, n = that value (K-fname: byte 4 a char boundary; K-fname-nb: byte 4 a continuation byte -> None without panic); other lengths -> None (K-fname-len); filename() round trip (K-fname-rt, bounded in the digits). '
                 'FS effects: Directory::gc (verified) removes only files popped from the tracker (O-C06-gc-prefix) and names them with filepath(dir, tracked number) (O-C17-remove-path); '
                 'structural obligations over the whole crate: remove_file/rename/... occur only in Directory::gc (O-C17-remove-site), files are opened/created only in create_file, Directory::open_file and sync_directory '
                 '(O-C17-open-sites), each through filepath(dir, tracked number) (O-C17-create-path, O-C17-open-path).',
-        kani_quick=['K-fname', 'K-fname-len'], kani_thorough=['K-fname-rt'],
+        kani_quick=['K-fname', 'K-fname-nb', 'K-fname-len'], kani_thorough=['K-fname-rt'],
         trusted=['Kani/CBMC', 'UTF-8 validity of the input str (byte 4 is a char boundary)', 'filepath = dir.join(filename()) (Path::join)', 'Directory::open (read_dir loop: trusted)'],
         not_decided=['that Directory::open skips non-regular files and unparsable names (read_dir / DirEntry / OsString are outside Verus; the function is trusted and watched by the changed-trusted-function detector)'],
     ),
